@@ -43,10 +43,15 @@ func c11MakeStream(n int, withGroups bool) *c11Stream {
 		has := false
 		gv := ""
 		if withGroups {
-			has = verifChoice("has_g", 2) == 1
-			if has {
+			// the group-by field: missing, present but empty, or present with a symbolic one-byte value
+			switch verifChoice("has_g", 3) {
+			case 1:
+				has = true
 				gv = verifString("g", 1)
 				rec.PutReference("g", mlrval.FromString(gv))
+			case 2:
+				has = true
+				rec.PutReference("g", mlrval.FromString(""))
 			}
 		}
 		rec.PutReference("x", mlrval.FromString("v"))
